@@ -1091,3 +1091,25 @@ Example decompose_example :
              Some (mkOp [0] 1 [false] [true] true); Some (mkOp [1] 2 [true] [true] true)] in
   exists b, decompose sl = Some (b, 2) /\ links_ok sl b = true /\ sides_ok sl b = true.
 Proof. cbv zeta. eexists. split; [vm_compute; reflexivity|split; vm_compute; reflexivity]. Qed.
+
+(* ================================================================== *)
+(* corollaries about the ACTUAL decomposition (no validator hypothesis) *)
+(* ================================================================== *)
+From Coq Require Import QArith.
+From QmcV Require Import Model.Ham.
+Corollary decomposed_flip_wf sl st b n flips :
+  decompose sl = Some (b, n) -> vars_in_range (length st) sl = true -> wf st sl = true ->
+  let '(sl', st') := apply_flips sl st b flips in wf st' sl' = true.
+Proof. intros Hd Hr Hw. destruct (decompose_valid sl b n Hd) as [Hl _]. now apply cluster_flip_wf. Qed.
+
+Corollary decomposed_flip_involutive sl st b n flips :
+  decompose sl = Some (b, n) -> vars_in_range (length st) sl = true -> wf st sl = true ->
+  let '(sl', st') := apply_flips sl st b flips in apply_flips sl' st' b flips = (sl, st).
+Proof. intros Hd Hr Hw. destruct (decompose_valid sl b n Hd) as [Hl _]. now apply cluster_flip_involutive. Qed.
+
+Corollary decomposed_flip_weight H sl st b n flips :
+  decompose sl = Some (b, n) ->
+  (forall o, In (Some o) sl -> is_edge o = false -> flip_sym H o) ->
+  (forall o, In (Some o) sl -> is_edge o = true -> edge_free H o) ->
+  (weight_product H (fst (apply_flips sl st b flips)) == weight_product H sl)%Q.
+Proof. intros Hd H1 H2. destruct (decompose_valid sl b n Hd) as [_ Hs]. now apply cluster_flip_weight. Qed.
